@@ -50,7 +50,8 @@ theorem takeMsg_none (buf : List (Nat × Nat)) (c : Nat) (h : ∀ x ∈ buf, x.1
 theorem step_inv (cfg : Cfg) (hg : cfg.good = true) (s : St) (ev : Ev) (h : Inv s) : Inv (step cfg s ev) := by
   have hg' : cfg.closesConn = true ∧ cfg.ownChan = true ∧ cfg.buffered = true ∧ cfg.nonBlocking = true ∧
       cfg.syncDial = true := by
-    simp [Cfg.good] at hg; exact ⟨hg.1.1.1.1.1, hg.1.1.1.1.2, hg.1.1.1.2, hg.1.1.2, hg.2⟩
+    simp [Cfg.good] at hg; exact ⟨hg.1.1.1.1.1.1, hg.1.1.1.1.1.2, hg.1.1.1.1.2, hg.1.1.1.2, hg.1.2⟩
+  have hser : cfg.serial = true := by simp [Cfg.good] at hg; exact hg.2
   obtain ⟨hc, ho, hb, hn, hsd⟩ := hg'
   have hchan : ∀ k, chanOf cfg k = k := by intro k; simp [chanOf, ho]
   -- a request that waits, or that is returning, is not dialling
@@ -69,7 +70,7 @@ theorem step_inv (cfg : Cfg) (hg : cfg.good = true) (s : St) (ev : Ev) (h : Inv 
     unfold step
     by_cases hw : s.wedged = true
     · simp [hw]; exact h
-    · simp only [hw, Bool.false_eq_true, if_false]
+    · simp only [hw, Bool.false_eq_true, if_false, hser, Bool.true_and]
       by_cases hbusy : (s.cur.isSome || s.returning.isSome || s.dialing.isSome) = true
       · simp only [hbusy, if_true]; exact h
       · simp only [hbusy, Bool.false_eq_true, if_false]
@@ -223,7 +224,7 @@ theorem step_inv (cfg : Cfg) (hg : cfg.good = true) (s : St) (ev : Ev) (h : Inv 
     unfold step
     by_cases hw : s.wedged = true
     · simp [hw]; exact h
-    · simp only [hw, Bool.false_eq_true, if_false]
+    · simp only [hw, Bool.false_eq_true, if_false, hser, Bool.true_and]
       by_cases hbusy : (s.cur.isSome || s.returning.isSome || s.dialing.isSome) = true
       · simp only [hbusy, if_true]; exact h
       · simp only [hbusy, Bool.false_eq_true, if_false]
@@ -305,10 +306,10 @@ theorem C19_next_request_starts (cfg : Cfg) (hg : cfg.good = true) (evs : List E
     (hidle : (run cfg {} evs).cur = none ∧ (run cfg {} evs).returning = none ∧ (run cfg {} evs).dialing = none) :
     (step cfg (run cfg {} evs) .start).cur = some (run cfg {} evs).next := by
   have h := reachable_inv cfg hg evs
-  have ho : cfg.ownChan = true := by simp [Cfg.good] at hg; exact hg.1.1.1.1.2
+  have ho : cfg.ownChan = true := by simp [Cfg.good] at hg; exact hg.1.1.1.1.1.2
   unfold step
   simp only [h.notWedged, hidle.1, hidle.2.1, hidle.2.2, h.notBlocked, Option.isSome_none, Bool.or_self, Bool.false_eq_true,
-    if_false, Nat.lt_irrefl, gt_iff_lt]
+    if_false, Nat.lt_irrefl, gt_iff_lt, Bool.and_false]
   have hd : ∀ x ∈ (run cfg {} evs).buf, x.1 ≠ chanOf cfg (run cfg {} evs).next := by
     intro x hx; simp only [chanOf, ho, if_true]; have := h.bufOld x hx; omega
   unfold drain
@@ -351,7 +352,7 @@ theorem C19_answer_during_setup_discarded (cfg : Cfg) (hg : cfg.good = true) (ev
 
 /-- a synchronous dial cannot be given up: the event changes nothing -/
 theorem C19_sync_dial_waits (cfg : Cfg) (hg : cfg.good = true) (s : St) : step cfg s .dialGiveUp = s := by
-  have hsd : cfg.syncDial = true := by simp [Cfg.good] at hg; exact hg.2
+  have hsd : cfg.syncDial = true := by simp [Cfg.good] at hg; exact hg.1.2
   unfold step
   cases s.dialing <;> simp [hsd]
 
@@ -360,7 +361,7 @@ theorem C19_setup_done (cfg : Cfg) (hg : cfg.good = true) (evs : List Ev) (k : N
     (hd : (run cfg {} evs).dialing = some k) :
     (step cfg (run cfg {} evs) (.dialDone k)).cur = some k ∧ (step cfg (run cfg {} evs) (.dialDone k)).conns = [k] := by
   have h := reachable_inv cfg hg evs
-  have ho : cfg.ownChan = true := by simp [Cfg.good] at hg; exact hg.1.1.1.1.2
+  have ho : cfg.ownChan = true := by simp [Cfg.good] at hg; exact hg.1.1.1.1.1.2
   obtain ⟨_, _, e3, _, _, e6⟩ := h.dialExcl k hd
   have hdr : ∀ x ∈ (run cfg {} evs).buf, x.1 ≠ chanOf cfg k := by
     intro x hx; simp only [chanOf, ho, if_true]; exact e6 x hx
@@ -372,8 +373,8 @@ theorem C19_setup_done (cfg : Cfg) (hg : cfg.good = true) (evs : List Ev) (k : N
 
 /-! ### each fact is needed: the machines of the code before 396fba5 / 93b0ba8 -/
 
-def before : Cfg := ⟨false, false, false, false, 5000, true, true, 0⟩       -- shared unbuffered channel, connection never closed
-def closeOnly : Cfg := ⟨true, false, false, false, 5000, true, true, 0⟩    -- after 396fba5 only
+def before : Cfg := ⟨false, false, false, false, 5000, true, true, 0, true⟩       -- shared unbuffered channel, connection never closed
+def closeOnly : Cfg := ⟨true, false, false, false, 5000, true, true, 0, true⟩    -- after 396fba5 only
 
 /-- late answer, nobody waiting: the handler blocks and the next request is stuck for ever -/
 example : (run before {} [.start, .timeout, .ret, .answer 1, .start]).wedged = true := by decide
@@ -392,5 +393,28 @@ example : (run Chf.Gen.abmfClient {} [.start, .timeout, .ret, .startSlow, .answe
 /-- non-vacuity: the good machine on the same schedules -/
 example : (run Chf.Gen.abmfClient {} [.start, .timeout, .answer 1, .ret, .start, .answer 1, .answer 2, .ret]).log
     = [.own 2, .timeout 1] := by decide
+
+/-! ### the requests of a subscriber are made one at a time
+
+  The machine lets a request start only when none is in progress: every call of the two client functions is made by
+  the charging operation itself, which holds the subscriber lock until it returns.  `calls_serial` states, by
+  `decide` over the call sites regenerated from the working tree (Gen/DiamClient.lean: every call of
+  SendAccountDebitRequest / SendServiceUsageRequest outside their own packages, with whether it sits - directly or
+  through helper functions - in a `go` statement, a deferred call or a function literal), that this is so; it is
+  part of `Cfg.good`.  `C19_serial_needed`: a request made in the background breaks the property on the otherwise
+  good machine - the answer to the background request is taken by the next request. -/
+
+/-- the extractor saw the call sites (it did not go blind) and none of them is asynchronous -/
+theorem calls_serial :
+    Chf.Gen.clientCallSites ≠ [] ∧ Chf.Gen.clientCallSites.all (fun c => !c.async) = true ∧
+    Chf.Gen.abmfClient.serial = true ∧ Chf.Gen.ratingClient.serial = true := by decide
+
+/-- the machine of the working tree's client function, were one of its calls made in the background -/
+def background : Cfg := { Chf.Gen.abmfClient with serial := false }
+
+/-- the fact is needed: the operation returns, its request still waits; the next request of the subscriber is
+    given the answer to it -/
+theorem C19_serial_needed :
+    Outcome.foreign 2 1 ∈ (run background {} [.start, .start, .answer 1]).log := by decide
 
 end Chf.Props.C19
